@@ -153,6 +153,15 @@ def pairs(dt):
                 out.append((d, s, n))
     return out
 
+def rescale(case, j):
+    """the same circuit on another time scale: time unit * 2^j (dt, delays, spreads), source slopes and edge weights / 2^j.  Every number
+    the integration produces is unchanged (so exactness is), but the rates n/d of the kernels move over many orders of magnitude — which is
+    what `round(rate, 12)` in the chain grouping of _add_edge_buffer sees."""
+    f = Fr(2) ** j
+    nodes = [dict(n, k=str(Fr(n["k"]) / f)) if n["kind"] == "s" else dict(n) for n in case["nodes"]]
+    edges = [[s_, t_, str(Fr(w) / f), ds if ds == "nokey" else [str(Fr(x) * f) for x in ds]] for s_, t_, w, ds in case["edges"]]
+    return dict(case, dt=str(Fr(case["dt"]) * f), nodes=nodes, edges=edges, scale=j)
+
 def exact_ok(case, bits=46):
     """all values of the explicit system stay exactly representable (dyadic, < 2^bits significant bits)"""
     dt = Fr(case["dt"]); nodes = case["nodes"]; edges = case["edges"]; dde = case.get("dde", 0)
@@ -250,6 +259,26 @@ def gen_case(rng, kind="valid"):
             for gi, (d, sp, n) in enumerate(groups):
                 for _ in range(rng.randint(2, 3) if gi == 0 else rng.randint(1, 2)):
                     edges.append([rng.choice(su), rng.choice(T), str(Fr(rng.choice([-3, -2, -1, 1, 2, 3]), 2)), [str(d), str(sp)]])
+        if kind == "scaled":
+            # vectorized, one source class with 1-3 units, 3-6 (delay, spread) edges over 2-3 kernels of the SAME order and different rates
+            # (e.g. (1/2,1/4), (1,1/2), (2,1), (4,2): order 4, rates 8, 4, 2, 1), written in an order where a kernel repeats before a new one
+            # first appears (A,A,B; A,B,A,C; A,A,B,A,B); then moved to a time scale 2^j, j in -6..13: at j >= 10 rates of one order fall
+            # into one bin of width 0.01 (they still differ by a factor 2: every slot must keep ITS rate)
+            vec = True
+            su = [i for i in S if nodes[i]["cls"] == nodes[S[0]]["cls"]]
+            byn = {}
+            for q in pp:
+                byn.setdefault(q[2], {}).setdefault(q[0], q)           # one pair per (order, delay)
+            cands = [list(v.values()) for v in byn.values() if len(v) >= 2]
+            if not cands:
+                continue
+            pool_ = rng.choice(cands); ks = rng.sample(pool_, rng.randint(2, min(3, len(pool_))))
+            seq = [0, 0] if rng.random() < 0.6 else [0, 1, 0]
+            while len(seq) < rng.randint(3, 6):
+                seq.append(rng.randrange(min(len(ks), max(seq) + 2)))
+            if len(set(seq)) < 2:
+                seq.append(1)
+            edges = [[rng.choice(su), rng.choice(T), str(Fr(rng.choice([-3, -2, -1, 1, 2, 3]), 2)), [str(ks[i][0]), str(ks[i][1])]] for i in seq]
         if kind == "perm":
             # two units of one class, the edge from the later unit written first, same (d, s): one chain over the whole vector
             vec = True
@@ -330,6 +359,10 @@ def gen_case(rng, kind="valid"):
             if ie:
                 case["int_edges"] = ie
         if exact_ok(case):
+            if kind == "scaled":
+                return rescale(case, rng.choice([-6, -3, 3, 8, 10, 10, 11, 12, 13]))
+            if kind in ("valid", "chains") and not case.get("int_edges") and rng.random() < 0.3:
+                return rescale(case, rng.randint(-6, 9))
             return case
     raise RuntimeError("generator could not produce an exactly representable case")
 
@@ -571,6 +604,7 @@ def check(ctx):
         cases = [c["case"] if "case" in c else c for c in load_corpus("C11")]
         cases += [gen_case(ctx.rng, "valid") for _ in range(n_valid)]
         cases += [gen_case(ctx.rng, "chains") for _ in range(n_valid // 5)]
+        cases += [gen_case(ctx.rng, "scaled") for _ in range(n_valid // 4)]
         for kind in ("plain", "dde", "kernel", "shared", "perm", "tap", "intdelay", "mixkeys", "twin", "mixkinds", "mixkinds"):
             cases += [gen_case(ctx.rng, kind) for _ in range(n_viol)]
         cases += [gen_conn(ctx.rng) for _ in range(n_valid * 2 // 5)]
@@ -630,7 +664,7 @@ def check(ctx):
                    show=lambda c: dict(implementation_output=fails(ctx, c, "show")[1], model_output=model_outputs(ctx, c, "show")))
     nt = {canon(c) for i, c in enumerate(cases) if nontrivial(c) and i in in_guard}
     orders = sorted({rhe((Fr(e[3][0]) / Fr(e[3][1])) ** 2) for c in cases for e in c["edges"] if e[3] != "nokey" and len(e[3]) == 2})
-    hist = dict(adaptive_stream=len(acases), with_taps=sum(1 for c in cases if c.get("taps")), int_delays=sum(1 for c in cases if c.get("int_edges") or c.get("int_conn")),
+    hist = dict(time_scales=sorted({c.get("scale", 0) for c in cases}), adaptive_stream=len(acases), with_taps=sum(1 for c in cases if c.get("taps")), int_delays=sum(1 for c in cases if c.get("int_edges") or c.get("int_conn")),
                 connectivity=len(ci), connectivity_multi=sum(1 for i in ci if len(cases[i]["conns"]) > 1),
                 connectivity_same_delay_other_spread=sum(1 for i in ci if any(a["d"] == b["d"] and a["s"] != b["s"] for a in cases[i]["conns"] for b in cases[i]["conns"])), vectorized=sum(1 for c in cases if c["vectorize"]), dde_approx=sorted({c.get("dde", 0) for c in cases}),
                 in_guard=len(in_guard), guard_violating={g: len(gfalse[g]) for g in GUARDS}, orders=orders,
